@@ -213,7 +213,7 @@ def batch_job(arg):
         accept = []
         for (cid, kind, expect, p, desc) in cases:
             accept += [gen.modname(p, m) for m in p["modules"]] if p.get("_accept_modules") else [p["pkg"]]
-            steps.append(_step(p, stages=desc.get("stages")))
+            steps.append(_step(p, style=desc.get("entry_style", "eval"), stages=desc.get("stages")))
             ctl = control_program(p["pkg"] + "_ctl")
             accept.append(ctl["pkg"])
             steps.append(_step(ctl))
@@ -340,6 +340,18 @@ def build_cases(tier, seed):
         add("cycle", "CIRCULAR_CALL", dotted(prog_cycle("y%d" % n[0], ["call"] * ln, two_modules=True)), {"edges": ["call"] * ln, "accepted": "modules-only", "modules": 2})
         # a cycle of plain calls through two modules that import each other inside the function bodies
         add("cycle", "CIRCULAR_CALL", localize(prog_cycle("y%d" % n[0], ["call"] * ln, two_modules=True), forms=True), {"edges": ["call"] * ln, "imports": "function-local", "modules": 2})
+    # ---- the evaluation is entered by calling a data function directly (its decorator starts the evaluation)
+    def as_data_entry(p):
+        p["fns"][p["entry"]]["data_path"] = "/entry/%s" % p["pkg"]
+        return p
+
+    for edges in (["call"], ["call", "keep"], ["keep", "call", "method"]):
+        add("cycle", "CIRCULAR_CALL", as_data_entry(prog_cycle("y%d" % n[0], list(edges))), {"edges": list(edges), "entry_style": "call", "entry": "data function called directly"})
+    for depth, via in ((0, "call"), (2, "call"), (1, "keep")):
+        add("eval-in-eval", "EVAL_IN_EVAL", as_data_entry(prog_eval_in_eval("v%d" % n[0], depth, via)), {"depth": depth, "via": via, "entry_style": "call", "entry": "data function called directly"})
+    for t in (("/a", "/a/b"), ("/a/b/a", "/b", "/a/b")):
+        pref = "/case%d" % (n[0] + 1)
+        add("overlap", "OVERLAPPING_PATH", as_data_entry(prog_paths("o%d" % n[0], [pref + x for x in t], "top")), {"paths": list(t), "placement": "top", "adjacent": True, "entry_style": "call", "entry": "data function called directly"})
     # ---- the offending call sits in the second definition of a function that was defined twice under one name
     for kind, code in (("cycle", "CIRCULAR_CALL"), ("eval-in-eval", "EVAL_IN_EVAL"), ("overlap", "OVERLAPPING_PATH")):
         for order in ("old-first", "new-first"):
